@@ -13,7 +13,7 @@ contract("forcefield_helper.SMARTS_ASSIGNMENTS.__init__", trusted=True,
          props=["C20"], params=dict(self=Ref("SMARTS_ASSIGNMENTS"), smarts_filename=Opt(STR), nb_filename=Opt(STR)), returns=None,
          ensures=["self.built_smarts == smarts_filename and self.built_nb == nb_filename"],
          raises_may={"Exception": "True"},
-         modifies=["SMARTS_ASSIGNMENTS.built_smarts", "SMARTS_ASSIGNMENTS.built_nb"], allocates=False)
+         modifies=["SMARTS_ASSIGNMENTS.built_smarts@self", "SMARTS_ASSIGNMENTS.built_nb@self"], allocates=False)
 
 # cache invariant: the cached assigner, if any, was built from the cached names
 specfn('''
@@ -28,11 +28,14 @@ _GAC = {
     "implies(not is_none(old(_global_assignment_class)) and old(_global_smarts_rule_file) == smarts_filename and old(_global_nonbonded_itp_file) == nb_filename, result is old(_global_assignment_class))": "same-names-reuse-the-cache",
     "cache_inv(_global_assignment_class, _global_smarts_rule_file, _global_nonbonded_itp_file)": "cache-invariant-kept",
 }
+_GAC_ALL = dict(_GAC)
 contract("forcefield_helper.get_assignment_class", props=["C20"],
          params=dict(smarts_filename=Opt(STR), nb_filename=Opt(STR)), returns=Ref("SMARTS_ASSIGNMENTS"),
          requires=["cache_inv(_global_assignment_class, _global_smarts_rule_file, _global_nonbonded_itp_file)"],
          ensures=list(_GAC), labels=_GAC,
          raises_may={"Exception": "True"},
+         # history-freedom also when building the assigner fails (a missing file): the cache must not be left claiming names it was not built from
+         ensures_on_raise=["cache_inv(_global_assignment_class, _global_smarts_rule_file, _global_nonbonded_itp_file)"],
          modifies=["global.forcefield_helper._global_assignment_class", "global.forcefield_helper._global_smarts_rule_file",
                    "global.forcefield_helper._global_nonbonded_itp_file", "SMARTS_ASSIGNMENTS.built_smarts", "SMARTS_ASSIGNMENTS.built_nb"])
 
